@@ -1279,4 +1279,102 @@ Proof.
   apply kbp_process_good; [intros; apply run_nav_action_good; assumption | exact H].
 Qed.
 
+(** ---- the running [end] of GetPreedit / GetScriptText stays inside the input ---- *)
+Definition sel_in (n : nat) (g : segment) : Prop :=
+  s_end g <= n /\ forall c, selected_cand g = Some c -> c_end c <= n.
+
+Lemma sfit_sel_in inp n g : sfit true inp g -> seg_geo n g -> sel_in n g.
+Proof.
+  intros (_ & Hm) (A & B). split; [exact B|]. intros c Hsel. destruct (selected_in g c Hsel) as (m & Em & Hin).
+  specialize (Hm m Em). unfold menu_ok in Hm. destruct (s_status g).
+  - discriminate Hm.
+  - specialize (Hm c Hin). lia.
+  - destruct Hm as (Hm & _). specialize (Hm c Hsel). lia.
+  - destruct Hm as (Hm & _). specialize (Hm c Hsel). lia.
+Qed.
+
+Lemma fit_sel_in c : cinvT c -> fit c -> Forall (sel_in (length (sg_input (cx_comp c)))) (segs_fwd (cx_comp c)).
+Proof.
+  intros H (_ & L & _). destruct (good_geo c H) as ((_ & Hf) & _). unfold segs_fwd. apply Forall_rev.
+  unfold lfit in L. rewrite Forall_forall in *. intros g Hg. apply (sfit_sel_in (sg_input (cx_comp c))); auto.
+Qed.
+
+Lemma script_text_loop_ok inp l acc :
+  Forall (sel_in (length inp)) l -> snd (fst acc) <= length inp -> snd acc = true ->
+  snd (script_text_loop inp l acc) = true.
+Proof.
+  revert acc. induction l as [|g r IH]; intros [[res en] ok] Hf Hen Hok; [exact Hok|]. cbn [fst snd] in Hen, Hok. subst ok.
+  inversion Hf as [|? ? (A & B) Hr]; subst. cbn [script_text_loop].
+  pose proof (substr_se_ok inp en) as Hs.
+  destruct (selected_cand g) as [c|] eqn:Ec.
+  - specialize (B c eq_refl).
+    destruct (negb (match c_text c with [] => true | _ => false end) && status_geb (s_status g) SSelected); [apply IH; auto|].
+    destruct (c_preedit c); [|apply IH; auto].
+    specialize (Hs (c_end c) Hen). destruct (substr_se inp en (c_end c)). cbn in Hs. subst. apply IH; auto.
+  - specialize (Hs (s_end g) Hen). destruct (substr_se inp en (s_end g)). cbn in Hs. subst. apply IH; auto.
+Qed.
+
+Lemma comp_script_text_ok c : cinvT c -> fit c -> snd (comp_script_text (cx_comp c)) = true.
+Proof.
+  intros H F. unfold comp_script_text.
+  pose proof (script_text_loop_ok (sg_input (cx_comp c)) (segs_fwd (cx_comp c)) ([], 0, true) (fit_sel_in c H F)) as X.
+  destruct (script_text_loop (sg_input (cx_comp c)) (segs_fwd (cx_comp c)) ([], 0, true)) as [[res en] ok]. cbn [fst snd] in *.
+  apply X; [lia | reflexivity].
+Qed.
+
+Lemma preedit_step_ok inp full caret is_last a g :
+  sel_in (length inp) g -> pa_end a <= length inp -> pa_ok a = true ->
+  pa_end (preedit_step inp full caret is_last a g) <= length inp /\ pa_ok (preedit_step inp full caret is_last a g) = true.
+Proof.
+  intros (A & B) Hen Hok. unfold preedit_step.
+  set (a1 := if caret =? pa_end a then _ else a).
+  assert (H1 : pa_end a1 = pa_end a /\ pa_ok a1 = pa_ok a) by (subst a1; destruct (caret =? pa_end a); split; reflexivity).
+  destruct H1 as (E1 & E2). clearbody a1.
+  pose proof (substr_se_ok inp (pa_end a) (s_end g) Hen) as Hs.
+  destruct (negb is_last).
+  - destruct (selected_cand g) as [c|]; [cbn; split; [apply B; reflexivity | congruence]|].
+    destruct (has_tag TPhony (s_tags g)); [cbn; split; [exact A | congruence]|].
+    destruct (substr_se inp (pa_end a) (s_end g)) as [t ok]. cbn in Hs. subst ok. cbn. rewrite E2, Hok. split; [exact A | reflexivity].
+  - match goal with |- context [match pa_sel_end ?x with _ => _ end] => set (a2 := x) end.
+    assert (H2 : pa_end a2 <= length inp /\ pa_ok a2 = true).
+    { subst a2. destruct (selected_cand g) as [c|].
+      - specialize (B c eq_refl). destruct (c_preedit c) as [|b0 p0].
+        + destruct (substr_se inp (pa_end a) (s_end g)) as [t ok]. cbn in Hs. subst ok. cbn. rewrite E2, Hok. split; [exact A | reflexivity].
+        + destruct (find_byte byte_tab (b0 :: p0)); [|cbn; split; [exact B | congruence]].
+          destruct ((caret =? c_end c) && (c_end c =? length full)); cbn; split; try exact B; congruence.
+      - destruct (substr_se inp (pa_end a) (s_end g)) as [t ok]. cbn in Hs. subst ok. cbn. rewrite E2, Hok. split; [exact A | reflexivity]. }
+    clearbody a2. destruct (pa_sel_end a2); [cbn; exact H2 | exact H2].
+Qed.
+
+Lemma preedit_loop_ok inp full caret l a :
+  Forall (sel_in (length inp)) l -> pa_end a <= length inp -> pa_ok a = true ->
+  pa_ok (preedit_loop inp full caret l a) = true.
+Proof.
+  revert a. induction l as [|g r IH]; intros a Hf Hen Hok; [exact Hok|]. inversion Hf; subst. cbn [preedit_loop].
+  destruct (preedit_step_ok inp full caret (match r with [] => true | _ => false end) a g H1 Hen Hok) as (X & Y).
+  apply IH; assumption.
+Qed.
+
+Lemma ctx_preedit_ok c : cinvT c -> fit c -> pe_ok (ctx_preedit c) = true.
+Proof.
+  intros H F. unfold ctx_preedit, comp_preedit.
+  pose proof (preedit_loop_ok (sg_input (cx_comp c)) (cx_input c) (cx_caret c) (segs_fwd (cx_comp c))
+                              (mkPacc [] None 0 (Some 0) 0 true) (fit_sel_in c H F) ltac:(cbn; lia) eq_refl) as X.
+  set (a := preedit_loop _ _ _ _ _) in *. clearbody a.
+  set (a' := if pa_end a <? length (sg_input (cx_comp c)) then _ else a).
+  assert (Y : pa_ok a' = true) by (subst a'; destruct (pa_end a <? _); [cbn|]; exact X). clearbody a'.
+  destruct (_ ++ comp_prompt (cx_comp c)); cbn; exact Y.
+Qed.
+
+Lemma g_menu_view_ok c : cinvT c -> snd (menu_view cfg c) = true.
+Proof. intros H. wf menu_view_ok. Qed.
+
+Lemma view_no_err s : sgood s -> snd (view_of cfg s) = None.
+Proof.
+  intros (H & F). unfold view_of. pose proof (ctx_commit_text_ok (st_ctx s) H) as H2.
+  destruct (ctx_commit_text (st_ctx s)) as [pv ok2]. cbn [snd] in H2. subst ok2.
+  pose proof (g_menu_view_ok (st_ctx s) H) as Hm. destruct (menu_view cfg (st_ctx s)) as [mv ok3]. cbn [snd] in *. subst ok3.
+  rewrite (ctx_preedit_ok (st_ctx s) H F). cbn. rewrite andb_false_r. reflexivity.
+Qed.
+
 End Full.
